@@ -68,7 +68,7 @@ def classify_err(msghex):
     import re
     r = re.search(r"#(\d+) out of range", m)
     if r:
-        return "err:range" + r.group(1)
+        return "err:range%x" % int(r.group(1))
     for pat, cls in (("rep causes overflow", "err:overflow"), ("must be integers", "err:notint"),
                      ("interval too large", "err:toolarge"), ("wrap around", "err:wrap"),
                      ("too many values to unpack", "err:toomany"), ("invalid value", "err:invalid"),
@@ -155,7 +155,7 @@ def gen_string_cases(tier, rng, ck):
                 if (1 << 16) <= size < (1 << 63):
                     ck.count("rep:skipped-allocation")
                     continue
-                if n > (1 << 16) and sep is not None and size < (1 << 16):
+                if n > (1 << 16) and size < (1 << 16):
                     # n-1 writes of empty strings: the builder loop (like PUC-Lua's) runs n times
                     ck.count("rep:skipped-long-empty-loop")
                     continue
@@ -241,11 +241,493 @@ def known_string_finding(fn, args, go, im, s):
 
 
 # ----------------------------------------------------------------------------- tables
-THEOREMS_TAB = []
+THEOREMS_TAB = ["C19_insert_spec", "C19_remove_spec", "C19_move_spec", "C19_concat_spec", "C19_unpack_spec", "C19_pack_spec",
+                "C19_sort_is_permutation", "C19_tab_error_is_prefix"]
+TAGS = {"4c": "L", "52": "R", "524e": "RN", "72": "r", "636e": "cn", "6331": "c1", "6332": "c2",
+        "6731": "g1", "6732": "g2", "7331": "s1", "7332": "s2", "6c31": "l1", "6c32": "l2"}
+
+
+def contents_str(d):
+    if not d:
+        return "-"
+    return ";".join("%s=%s" % (arg(k), arg(v)) for k, v in sorted(d.items()))
+
+
+def tab_go_line(cid, c):
+    toks = [cid, "T" + c["op"], "mode=" + c["mode"], "len=" + (arg(c["len"]) if c.get("len") is not None else "-"),
+            "t1=" + contents_str(c["t1"])]
+    if c.get("t2") is not None:
+        toks.append("t2=" + contents_str(c["t2"]))
+    if c.get("err"):
+        toks.append("err=%d" % c["err"])
+    if c.get("cmp"):
+        toks.append("cmp=" + c["cmp"])
+    toks.append("--")
+    toks += [a if isinstance(a, str) else arg(a) for a in c["args"]]
+    return " ".join(toks)
+
+
+def pv(tok):
+    """canonical Go value -> python value"""
+    if tok == "n":
+        return None
+    if tok in ("b0", "b1"):
+        return tok == "b1"
+    if tok[0] == "i":
+        return int(tok[1:])
+    if tok[0] == "s":
+        return bytes.fromhex(tok[1:]) if tok != "s-" else b""
+    return ("opaque", tok)
+
+
+def parse_tab_go(ev):
+    """-> dict(status, L, ok, res, new, c1, c2, log) or dict(status='killed'/'panic'/...)"""
+    if ev.startswith("BATCHFAIL killed"):
+        return {"status": "spin"}
+    if ev.startswith("GOPANIC"):
+        return {"status": "panic", "raw": ev}
+    if ev.startswith(("BATCHFAIL", "CRASH", "HANG")) or not ev:
+        return {"status": "crash", "raw": ev[:200]}
+    r = {"status": "done", "L": None, "res": None, "new": {}, "c1": {}, "c2": {}, "log": []}
+    rn = None
+    for e in ev.split(";"):
+        t = e.split(",")
+        tag = TAGS.get(t[0][1:], "?")
+        v = [pv(x) for x in t[1:]]
+        if tag == "L":
+            r["L"] = v[0]
+        elif tag == "R":
+            n = v[-1]
+            r["res"] = v[:n]
+        elif tag == "RN":
+            rn = v[0]
+            r["res"] = []
+        elif tag == "r":
+            r["res"].append(v[0] if v else None)
+        elif tag in ("cn", "c1", "c2"):
+            r[{"cn": "new", "c1": "c1", "c2": "c2"}[tag]][v[0]] = v[1]
+        elif tag in ("g1", "g2"):
+            r["log"].append("%s:%s" % (tag, hexi(v[0])))
+        elif tag in ("s1", "s2"):
+            r["log"].append("%s:%s:%s" % (tag, hexi(v[0]), arg(v[1] if len(v) > 1 else None)))
+        elif tag in ("l1", "l2"):
+            r["log"].append(tag)
+        else:
+            r["status"] = "bad"
+    if rn is not None:
+        while len(r["res"]) < rn:
+            r["res"].append(None)
+    return r
+
+
+def tab_args_plain(c):
+    return [a for a in c["args"] if not (isinstance(a, str) and a.startswith("@"))]
+
+
+def tab_same(c):
+    return not (c["op"] == "move" and len(c["args"]) >= 5 and c["args"][4] == "@2")
+
+
+def tab_len(c, g):
+    return c["len"] if (c["mode"] == "proxy" and c.get("len") is not None) else g.get("L")
+
+
+def tab_keys(c, g):
+    ks = set(c["t1"].keys()) | set((c.get("t2") or {}).keys())
+    if g.get("status") == "done":
+        ks |= set(k for k in g["c1"] if isinstance(k, int)) | set(k for k in g["c2"] if isinstance(k, int))
+        for e in g["log"]:
+            f = e.split(":")
+            if len(f) > 1:
+                ks.add(int(f[1], 16))
+    a = [x for x in tab_args_plain(c) if isinstance(x, int) and not isinstance(x, bool)]
+    L = tab_len(c, g)
+    if isinstance(L, int):
+        a.append(L)
+    if c["op"] == "move" and len(a) >= 3 and a[0] <= a[1] and a[1] - a[0] <= 1000:
+        ks |= set(range(a[2], a[2] + a[1] - a[0] + 1))
+    for x in a:
+        ks |= {x}
+    out = set()
+    for k in ks:
+        for d in (-1, 0, 1):
+            if MININT <= k + d <= MAXINT:
+                out.add(k + d)
+    return sorted(out)
+
+
+def tab_oracle_line(cid, c, g):
+    L = tab_len(c, g)
+    toks = [cid, "T" + c["op"], "len1=" + hexi(L if isinstance(L, int) else 0), "len2=0", "t1=" + contents_str(c["t1"]),
+            "t2=" + contents_str(c.get("t2") or {}), "keys=" + ",".join(hexi(k) for k in tab_keys(c, g)),
+            "same=%d" % (1 if tab_same(c) else 0), "err=%d" % (c.get("err") or 0), "--"]
+    toks += [arg(a) for a in tab_args_plain(c)]
+    return " ".join(toks)
+
+
+def tab_go_canon(c, g):
+    """Go outcome in the oracle's form: (result, contents1, contents2, log)"""
+    if g["status"] != "done":
+        return (g["status"], "", "", "")
+    res = g["res"]
+    if res and res[0] is True:
+        vals = res[1:]
+        if c["op"] in ("insert",):
+            out = "ok:" if vals == [] else "ok:?" + repr(vals)
+        elif c["op"] == "move":
+            want = b"@1" if tab_same(c) else b"@2"
+            out = "ok:" if vals == [want] else "ok:?" + repr(vals)
+        elif c["op"] == "pack":
+            n = g["new"].get(b"n")
+            out = "ok:" + arg(n) if vals == [b"@new"] else "ok:?" + repr(vals)
+        elif c["op"] in ("remove", "concat"):
+            out = "ok:" + (arg(vals[0]) if len(vals) == 1 else "?" + repr(vals))
+        else:
+            out = "ok:" + ",".join(arg(v) for v in vals)
+    elif res and res[0] is False:
+        m = res[1] if len(res) > 1 else None
+        out = classify_err(m.hex()) if isinstance(m, bytes) else "err:nonstring"
+        if out == "err:invalid":
+            import re
+            r = re.search(rb"at index (-?\d+) in table", m)
+            out = "err:invalid:" + hexi(int(r.group(1))) if r else out
+    else:
+        out = "bad"
+    c1 = g["new"] if c["op"] == "pack" else g["c1"]
+    c1 = {k: v for k, v in c1.items() if isinstance(k, int)}
+    return (out, contents_str(c1), contents_str(g["c2"]), ",".join(g["log"]) or "-")
+
+
+def tab_feasible(c):
+    """False for calls that (correctly) run an astronomically long loop."""
+    a = [x for x in tab_args_plain(c)]
+    op = c["op"]
+    L = c.get("len") if c["mode"] == "proxy" and c.get("len") is not None else len(c["t1"])
+    if op == "move":
+        f, e, t = a[0], a[1], a[2]
+        if f <= e and e - f > 300 and not (f == t and tab_same(c)):
+            ok = (e - f + 1 <= MAXINT) and (t + (e - f) <= MAXINT)
+            return not ok
+    if op == "insert" and len(a) == 2 and isinstance(a[0], int):
+        return not (1 <= a[0] <= L + 1 and L - a[0] > 300 and L < MAXINT)
+    if op == "remove" and a and isinstance(a[0], int):
+        return not (1 <= a[0] < L and L - a[0] > 300)
+    if op in ("unpack", "concat"):
+        idx = a if op == "unpack" else a[1:]
+        i = idx[0] if len(idx) > 0 and idx[0] is not None else 1
+        j = idx[1] if len(idx) > 1 and idx[1] is not None else L
+        if op == "unpack":
+            return j - i <= 300 or (i < MAXINT - 256)        # the latter raises "too many"
+        return True      # concat stops at the first nil
+    return True
+
+
+def gen_table_cases(tier, rng, ck):
+    thorough = tier == "thorough"
+    cases = []
+    seqs = []
+    for n in range(0, 6):
+        seqs.append({i + 1: 11 + i for i in range(n)})
+    seqs.append({1: b"a", 2: 7, 3: b"", 4: -3})
+    seqs.append({1: 11, 2: 12, 4: 14, 5: 15})            # a hole
+    seqs.append({0: 10, 1: 11, 2: 12, 3: 13, -1: 9, 7: 17})
+    def lens(n):
+        return [None, n, n + 1, n - 1, 0, -1, MAXINT, MAXINT - 1, MININT]
+    def modes(n):
+        out = [("plain", None)]
+        for l in lens(n):
+            out.append(("proxy", l))
+        return out
+    def poslat(n):
+        return [MININT, MININT + 1, -1, 0] + list(range(1, n + 3)) + [MAXINT - 1, MAXINT]
+    for t in seqs:
+        n = len(t)
+        for mode, l in modes(n):
+            base = {"mode": mode, "len": l, "t1": t}
+            for pos in [None] + poslat(n):
+                for v in (99, None):
+                    cases.append(dict(base, op="insert", args=["@1", v] if pos is None else ["@1", pos, v]))
+                cases.append(dict(base, op="remove", args=["@1"] if pos is None else ["@1", pos]))
+            for i in [None] + poslat(n):
+                for j in [None] + poslat(n):
+                    if i is None and j is not None:
+                        cases.append(dict(base, op="unpack", args=["@1", None, j]))
+                        continue
+                    cases.append(dict(base, op="unpack", args=["@1"] + ([i] if i is not None else []) + ([j] if j is not None else [])))
+                    for sep in (b",", b""):
+                        if (mode == "plain" or l in (None, n, MAXINT)) and (sep or thorough):
+                            cases.append(dict(base, op="concat", args=["@1", sep] + ([i] if i is not None else []) + ([j] if j is not None else [])))
+            cases.append(dict(base, op="concat", args=["@1"]))
+    # concat with an invalid element at every position
+    for n in range(1, 5):
+        for bad in range(1, n + 1):
+            for badv in (True, None):
+                t = {i: (b"s%d" % i if i % 2 else i * 10) for i in range(1, n + 1)}
+                if badv is None:
+                    del t[bad]
+                else:
+                    t[bad] = badv
+                for mode in ("plain", "proxy"):
+                    cases.append({"op": "concat", "mode": mode, "len": n, "t1": t, "args": ["@1", b"-"]})
+                    cases.append({"op": "concat", "mode": mode, "len": n, "t1": t, "args": ["@1", b"-", 2, n]})
+    for v in (MININT, MAXINT, -1, 0, 1234567890123):
+        cases.append({"op": "concat", "mode": "plain", "len": None, "t1": {1: v, 2: b"x", 3: v}, "args": ["@1", b" "]})
+    # move: the (f, e, t) lattice, same table and another table
+    mseqs = [seqs[3], seqs[5], seqs[8]] if not thorough else seqs
+    for t in mseqs:
+        n = len(t)
+        lat = [MININT, MININT + 1, -1, 0, 1, 2, 3, n, n + 1, n + 3, MAXINT - 1, MAXINT]
+        lat = sorted(set(lat))
+        for f, e, d in itertools.product(lat, repeat=3):
+            for mode in ("plain", "proxy"):
+                cases.append({"op": "move", "mode": mode, "len": None, "t1": t, "args": ["@1", f, e, d]})
+                if mode == "proxy" or thorough:
+                    cases.append({"op": "move", "mode": mode, "len": None, "t1": t, "t2": {1: 71, 2: 72, 9: 79},
+                                  "args": ["@1", f, e, d, "@2"]})
+                    cases.append({"op": "move", "mode": mode, "len": None, "t1": t, "args": ["@1", f, e, d, "@1"]})
+    # overlapping moves of every small shape
+    for n in range(1, 6):
+        t = {i: 20 + i for i in range(1, n + 1)}
+        for f in range(0, n + 1):
+            for e in range(f - 1, n + 2):
+                for d in range(-1, n + 3):
+                    cases.append({"op": "move", "mode": "proxy" if (f + e + d) % 2 else "plain", "len": None, "t1": t, "args": ["@1", f, e, d]})
+    # pack
+    pvs = [None, 1, b"x", False]
+    for n in range(0, 4):
+        for tup in itertools.product(pvs, repeat=n):
+            cases.append({"op": "pack", "mode": "plain", "len": None, "t1": {}, "args": list(tup)})
+    cases.append({"op": "pack", "mode": "plain", "len": None, "t1": {}, "args": list(range(1, 40))})
+    # error injection: a metamethod raises at the k-th access
+    for t in (seqs[3], seqs[5]):
+        n = len(t)
+        for k in range(1, 2 * n + 4):
+            b = {"mode": "proxy", "len": n, "t1": t, "err": k}
+            cases.append(dict(b, op="insert", args=["@1", 1, 99]))
+            cases.append(dict(b, op="insert", args=["@1", 99]))
+            cases.append(dict(b, op="remove", args=["@1", 1]))
+            cases.append(dict(b, op="remove", args=["@1"]))
+            cases.append(dict(b, op="move", args=["@1", 1, n, 2]))
+            cases.append(dict(b, op="move", args=["@1", 2, n, 1]))
+            cases.append(dict(b, op="move", t2={5: 1}, args=["@1", 1, n, 1, "@2"]))
+            cases.append(dict(b, op="unpack", args=["@1"]))
+            cases.append(dict(b, op="concat", args=["@1", b","]))
+    # random longer sequences
+    nrand = 1500 if not thorough else 40000
+    for _ in range(nrand):
+        n = rng.geometric(8, 60)
+        t = {i: (rng.below(100) if rng.chance(4, 5) else bytes([97 + rng.below(26)])) for i in range(1, n + 1)}
+        mode = rng.choice(["plain", "proxy"])
+        pos = lambda: rng.choice([rng.below(n + 3) - 1, rng.below(n + 1) + 1, rng.below(n + 1) + 1])
+        k = rng.below(6)
+        b = {"mode": mode, "len": None, "t1": t}
+        if k == 0:
+            cases.append(dict(b, op="insert", args=["@1", pos(), 1000] if rng.chance(2, 3) else ["@1", 1000]))
+        elif k == 1:
+            cases.append(dict(b, op="remove", args=["@1", pos()] if rng.chance(2, 3) else ["@1"]))
+        elif k == 2:
+            cases.append(dict(b, op="move", args=["@1", pos(), pos(), pos() + rng.below(3) - 1]))
+        elif k == 3:
+            cases.append(dict(b, op="unpack", args=["@1", pos(), pos()]))
+        elif k == 4:
+            cases.append(dict(b, op="concat", args=["@1", rng.choice([b"", b", "]), pos(), pos()]))
+        else:
+            cases.append(dict(b, op="move", t2={i: -i for i in range(1, rng.below(8))}, args=["@1", pos(), pos(), pos(), "@2"]))
+    out = []
+    for c in cases:
+        if tab_feasible(c):
+            out.append(c)
+        else:
+            ck.count("tab:skipped-long-loop:" + c["op"])
+    return out
+
+
+def gen_sort_cases(tier, rng):
+    thorough = tier == "thorough"
+    cases = []
+    cmps = ["none", "lt", "gt", "le", "true", "false", "nil", "mod3", "rand1", "rand7", "rand12345", "err1", "err2", "err5", "err17", "yield"]
+    vals = [3, 1, 2]
+    for n in range(0, 6 if not thorough else 7):
+        for perm in itertools.permutations(range(1, n + 1)):
+            t = {i + 1: perm[i] for i in range(n)}
+            for cmpk in (cmps if n <= 4 or thorough else ["none", "gt", "true", "rand7", "err2"]):
+                cases.append({"op": "sort", "mode": "plain" if (n + len(cmpk)) % 2 else "proxy", "len": None, "t1": t, "cmp": cmpk, "args": []})
+    # duplicates, strings, mixed (comparison errors), holes, lying __len
+    specials = [{1: 2, 2: 2, 3: 1, 4: 2, 5: 1}, {1: b"b", 2: b"a", 3: b"", 4: b"ab"}, {1: 3, 2: b"x", 3: 1},
+                {1: 5, 2: 4, 4: 2, 5: 1}, {1: 3, 2: 2, 3: 1, 0: 100, 4: -1, 7: 0}]
+    for t in specials:
+        for cmpk in cmps:
+            for mode, l in (("plain", None), ("proxy", None), ("proxy", 3), ("proxy", 6), ("proxy", 0), ("proxy", -1),
+                            ("proxy", MININT), ("proxy", 1 << 40), ("proxy", MAXINT)):
+                cases.append({"op": "sort", "mode": mode, "len": l, "t1": t, "cmp": cmpk, "args": []})
+    for _ in range(400 if not thorough else 10000):
+        n = rng.geometric(15, 300)
+        t = {i: rng.below(rng.choice([3, 50, 1 << 40])) for i in range(1, n + 1)}
+        cmpk = rng.choice(cmps + ["rand%d" % rng.below(1 << 30), "err%d" % (1 + rng.below(4 * n + 1))])
+        cases.append({"op": "sort", "mode": rng.choice(["plain", "proxy"]), "len": None, "t1": t, "cmp": cmpk, "args": []})
+    return cases
+
+
+CONSISTENT = {"none": lambda a, b: a < b, "lt": lambda a, b: a < b, "gt": lambda a, b: a > b, "mod3": lambda a, b: a % 3 < b % 3}
+
+
+def sort_predicates(c, g):
+    """C19 for table.sort on the Go output alone; returns a list of failures."""
+    fails = []
+    if g["status"] != "done":
+        return ["sort did not return: " + g["status"] + " " + g.get("raw", "")[:80]]
+    L = tab_len(c, g)
+    res = g["res"]
+    ok = bool(res) and res[0] is True
+    before, after = c["t1"], g["c1"]
+    if isinstance(L, int) and 0 < L < (1 << 40):
+        rng_keys = range(1, min(L, 400) + 1)
+        b = sorted((repr(before.get(k)) for k in rng_keys))
+        a = sorted((repr(after.get(k)) for k in rng_keys))
+        if a != b:
+            fails.append("elements lost or duplicated: before %s after %s" % (b[:12], a[:12]))
+        for k in set(before) | set(after):
+            if not (1 <= k <= L) and before.get(k) != after.get(k):
+                fails.append("key %d outside 1..#t changed" % k)
+        if ok and c["cmp"] in CONSISTENT and all(isinstance(after.get(k), int) for k in rng_keys):
+            lt = CONSISTENT[c["cmp"]]
+            for k in range(1, min(L, 400)):
+                if lt(after[k + 1], after[k]):
+                    fails.append("not ordered at %d: %r then %r" % (k, after[k], after[k + 1]))
+                    break
+        if ok and c["cmp"] in ("none", "lt") and all(isinstance(after.get(k), bytes) for k in rng_keys):
+            for k in range(1, L):
+                if after[k + 1] < after[k]:
+                    fails.append("strings not ordered at %d" % k)
+                    break
+        for e in g["log"]:
+            f = e.split(":")
+            if len(f) > 1 and not (1 <= int(f[1], 16) <= L):
+                fails.append("sort accessed index %s outside 1..%d" % (f[1], L))
+                break
+    else:
+        if before != {k: v for k, v in after.items()}:
+            fails.append("table changed although #t = %r" % (L,))
+        if isinstance(L, int) and L >= (1 << 40) and ok:
+            fails.append("sort of 2^40 or more elements returned normally")
+    if not ok and res is not None and c["cmp"] in ("none", "lt", "gt", "true", "false", "nil", "mod3") and \
+            isinstance(L, int) and L < (1 << 40) and all(isinstance(before.get(k), int) for k in range(1, max(L, 0) + 1)) and not c.get("err"):
+        fails.append("sort raised an error on integers with a total comparator: %r" % (res[1:2],))
+    return fails
+
+
+def tab_known(c, g, go, im, s):
+    L = tab_len(c, g)
+    if L == MAXINT and c["op"] in ("insert", "remove") and go == im:
+        return "C19-insert-remove-len-maxint-wraps"
+    return None
 
 
 def check_tables(ck, gvh, oracle, tier, corpus, tag="t"):
-    return 0, []
+    cases = gen_table_cases(tier, ck.rng, ck)
+    sorts = gen_sort_cases(tier, ck.rng)
+    allc = cases + sorts
+    lines = [tab_go_line("%s%d" % (tag, i), c) for i, c in enumerate(allc)]
+    ck.log("table cases: %d (+ %d sort)" % (len(cases), len(sorts)))
+    go = run_go(gvh, lines, batch=500)
+    # calls the model predicts to spin are re-run under a CPU limit
+    parsed = {}
+    for i, c in enumerate(allc):
+        cid = "%s%d" % (tag, i)
+        parsed[cid] = parse_tab_go(go.get(cid, ""))
+    redo = [l for l in lines if parsed[l.split(" ", 1)[0]]["status"] in ("crash",) and "len=i7fffffffffffffff" in l and " Tinsert " in l]
+    if redo:
+        rc, out, _ = vlib.run_lines(gvh, ["1", "cpu=300000"], redo, timeout=600)
+        for l in out:
+            cid, _, ev = l.partition(" ")
+            parsed[cid] = parse_tab_go(ev)
+    olines = [tab_oracle_line("%s%d" % (tag, i), c, parsed["%s%d" % (tag, i)]) for i, c in enumerate(cases)]
+    rc, mod, err = run_oracle(oracle, olines)
+    if rc != 0 or len(mod) != len(olines):
+        ck.violation("oracle crashed on table cases (%d/%d lines)" % (len(mod), len(olines)),
+                     {"kind": "oracle-crash", "stderr": err[-2000:]}, no_input=True)
+    nviol = 0
+    imdiff = []
+    fails = {}
+    for i, c in enumerate(cases):
+        cid = "%s%d" % (tag, i)
+        g = parsed[cid]
+        m = mod.get(cid)
+        if m is None:
+            continue
+        gc = tab_go_canon(c, g)
+        imf = (m["IM"].split("/") + ["", "", "", ""])[:4]
+        sf = (m["S"].split("/") + ["", "", ""])[:3]
+        op = c["op"]
+        ck.count("tab:" + op + ":" + c["mode"] + (":err-injected" if c.get("err") else "") + (":2tables" if c.get("t2") is not None else ""))
+        ck.count("tab-outcome:" + gc[0].split(":")[0] + (":" + gc[0].split(":")[1] if gc[0].startswith("err:") else ""))
+        ck.case(lines[i].split(" ", 1)[1], nontrivial=(gc[0] not in ("ok:",) or gc[1] != contents_str(c["t1"])))
+        if g["status"] in ("panic", "crash", "bad"):
+            nviol += 1
+            fails.setdefault(op + "/crash", []).append((len(lines[i]), i, gc, imf, sf))
+            continue
+        # --- Go vs S
+        s_applicable = not (sf[0] == "big") and not (gc[0] == "err:injected")
+        s_ok = True
+        if s_applicable:
+            if sf[0].startswith("err:"):
+                s_ok = gc[0].startswith("err:") and gc[1] == sf[1] and gc[2] == sf[2]
+            else:
+                s_ok = (gc[0], gc[1], gc[2]) == (sf[0], sf[1], sf[2])
+            if not s_ok and op == "unpack" and gc[0] == "err:toomany":
+                a = tab_args_plain(c)
+                ii = a[0] if len(a) > 0 and a[0] is not None else 1
+                jj = a[1] if len(a) > 1 and a[1] is not None else tab_len(c, g)
+                if jj - ii >= 256:
+                    s_ok = True          # implementation limit on the number of results
+                    ck.count("tab:unpack:result-limit")
+        else:
+            ck.count("tab:S-not-applicable:" + ("big-range" if sf[0] == "big" else "injected-error"))
+        # --- Go vs IM (log only where there is one)
+        im_ok = (gc[0], gc[1], gc[2]) == (imf[0], imf[1], imf[2]) and (c["mode"] == "plain" or gc[3] == imf[3])
+        if not s_ok:
+            k = tab_known(c, g, gc[:3], tuple(imf[:3]), sf)
+            kf = ck.known_match(lambda e: e["id"] == k) if k else None
+            if kf is not None:
+                ck.known_finding(kf)
+                ck.count("known:" + k)
+            else:
+                nviol += 1
+                fails.setdefault(op, []).append((len(lines[i]), i, gc, imf, sf))
+        elif not im_ok:
+            imdiff.append({"case": lines[i].split(" ", 1)[1], "impl": list(gc), "model_IM": imf, "spec_S": sf})
+    for op, lst in fails.items():
+        lst.sort()
+        for _, i, gc, imf, sf in lst[:2]:
+            ck.violation("table.%s differs from the manual's definition on %s: Go %s, spec %s (%d failing cases)"
+                         % (op, lines[i].split(" ", 1)[1][:200], gc[:3], sf, len(lst)),
+                         {"kind": "Go!=S", "engine": "strlib", "case": lines[i].split(" ", 1)[1], "impl": list(gc), "model_IM": imf,
+                          "spec_S": sf, "failing_cases": len(lst), "theorems": [t for t in THEOREMS_TAB if op.split("/")[0] in t]})
+    # --- sort: property predicates on the Go output
+    sfail = []
+    for j, c in enumerate(sorts):
+        i = len(cases) + j
+        cid = "%s%d" % (tag, i)
+        g = parsed[cid]
+        f = sort_predicates(c, g)
+        res = g.get("res") or [None]
+        ck.count("sort:cmp=" + ("".join(ch for ch in c["cmp"] if not ch.isdigit())) + ":" + c["mode"])
+        ck.count("sort-outcome:" + ("ok" if res[0] is True else "error" if res[0] is False else g["status"]))
+        ck.case(lines[i].split(" ", 1)[1], nontrivial=len(c["t1"]) > 1)
+        if f:
+            sfail.append((len(lines[i]), i, f))
+    sfail.sort()
+    nviol += len(sfail)
+    for _, i, f in sfail[:3]:
+        ck.violation("table.sort: %s on %s (%d failing cases)" % (f[0], lines[i].split(" ", 1)[1][:160], len(sfail)),
+                     {"kind": "Go!=S", "engine": "strlib", "case": lines[i].split(" ", 1)[1], "impl": go.get("%s%d" % (tag, i), "")[:2000],
+                      "failed_predicates": f, "theorems": ["C19_sort_is_permutation", "C19_sort_sorted_if_consistent"]})
+    for i in (0, len(cases) // 2, len(cases) + len(sorts) // 2):
+        cid = "%s%d" % (tag, i)
+        if i < len(allc):
+            ck.sample({"case": lines[i].split(" ", 1)[1][:300], "impl": go.get(cid, "")[:300], "model": str(mod.get(cid, ""))[:300]})
+    ck.log("table functions: %d Go!=S, %d Go!=IM; sort predicate failures %d" % (nviol - len(sfail), len(imdiff), len(sfail)))
+    return nviol, imdiff
 
 
 def oracle_line(cid, case, goev):
